@@ -16,6 +16,7 @@ import (
 	"runtime"
 	"sort"
 	"strings"
+	"syscall"
 	"time"
 
 	"github.com/SAP/go-dblib/zz_verif/simrt"
@@ -44,6 +45,9 @@ type replayFile struct {
 	// way a violation that needs state the library keeps between runs (package-level variables) is replayed.
 	ProcFrom int   `json:"proc_from"`
 	Prelude  []int `json:"prelude,omitempty"`
+	// InitSeed is the SIMRT_INIT_SEED of the process that recorded the file (it decides map iteration orders
+	// during package initialisation): a replay runs in a process started with the same value.
+	InitSeed uint64 `json:"init_seed,omitempty"`
 }
 
 var out = bufio.NewWriterSize(os.Stdout, 1<<16)
@@ -277,7 +281,7 @@ func main() {
 			perSig[v.Sig]++
 			file := ""
 			if *outDir != "" && perSig[v.Sig] <= *maxFiles {
-				rf := replayFile{Property: p.ID(), Tier: *tier, Seed: *seed, RunIndex: idx, SchedSeed: schedSeed, Race: simrt.RaceBuild, ProcFrom: *from}
+				rf := replayFile{Property: p.ID(), Tier: *tier, Seed: *seed, RunIndex: idx, SchedSeed: schedSeed, Race: simrt.RaceBuild, ProcFrom: *from, InitSeed: simrt.InitSeed}
 				rf.Plan, _ = json.Marshal(plan)
 				if o != nil {
 					rf.Tape = o.Tape
@@ -393,6 +397,22 @@ func readReplay(path string) (*replayFile, worlds.Prop, interface{}, int) {
 	plan, err := p.Decode(rf.Plan)
 	if err != nil {
 		fmt.Fprintf(os.Stderr, "worker: plan: %v\n", err)
+		return nil, nil, nil, 2
+	}
+	if rf.InitSeed != simrt.InitSeed {
+		// package initialisation has already happened with another seed: start over as the recording process did
+		exe, err := os.Executable()
+		if err == nil {
+			env := []string{}
+			for _, e := range os.Environ() {
+				if !strings.HasPrefix(e, "SIMRT_INIT_SEED=") {
+					env = append(env, e)
+				}
+			}
+			env = append(env, fmt.Sprintf("SIMRT_INIT_SEED=%d", rf.InitSeed))
+			err = syscall.Exec(exe, os.Args, env)
+		}
+		fmt.Fprintf(os.Stderr, "worker: cannot restart with the recorded init seed: %v\n", err)
 		return nil, nil, nil, 2
 	}
 	return rf, p, plan, 0
